@@ -94,9 +94,9 @@ static void scenario(int nthreads, int script, bool early_release)
   mc_event("ok");
 }
 
-MC_SCENARIO(ref_t2_copy, 3, 4) { scenario(2, 1, true); }
-MC_SCENARIO(ref_t2_assign, 3, 4) { scenario(2, 2, true); }
-MC_SCENARIO(ref_t2_all, 2, 3) { scenario(2, 7, true); }
-MC_SCENARIO(ref_t2_all_late, 2, 3) { scenario(2, 7, false); }
-MC_SCENARIO(ref_t3_assign, 2, 3) { scenario(3, 2, true); }
-MC_SCENARIO(ref_t3_raw, 2, 2) { scenario(3, 6, true); }
+MC_SCENARIO(ref_t2_copy, 4, 6) { scenario(2, 1, true); }
+MC_SCENARIO(ref_t2_assign, 4, 6) { scenario(2, 2, true); }
+MC_SCENARIO(ref_t2_all, 3, 5) { scenario(2, 7, true); }
+MC_SCENARIO(ref_t2_all_late, 3, 5) { scenario(2, 7, false); }
+MC_SCENARIO(ref_t3_assign, 3, 4) { scenario(3, 2, true); }
+MC_SCENARIO(ref_t3_raw, 3, 4) { scenario(3, 6, true); }
